@@ -17,7 +17,9 @@
 (***************************************************************************)
 EXTENDS Integers, Sequences, FiniteSets, TLC
 
-CONSTANTS Txs, Bound, MaxCrashes, PopBeforeSave
+CONSTANTS Txs, Bound, MaxCrashes, PopBeforeSave,
+          WriteFails, \* BOOLEAN: a datastore write may be refused with an error (the process lives on); counted with the crashes
+          ReInject   \* BOOLEAN: the same transaction may be put into the mempool again (off in the exhaustive runs: self-loops only)
 
 VARIABLES mempool,  \* transactions the execution layer offers (retained until executed)
           seen,     \* durable seen-set of the reaper
@@ -35,7 +37,8 @@ InChain(t) == \E i \in 1 .. Len(chain) : t \in chain[i]
 Init == /\ mempool = {} /\ seen = {} /\ queue = <<>> /\ pcR = "idle" /\ cand = {} /\ pcP = "idle" /\ cur = {}
         /\ pend = {} /\ chain = <<>> /\ injected = {} /\ crashes = 0 /\ excused = {}
 
-Inject(t) == /\ t \notin injected /\ injected' = injected \cup {t} /\ mempool' = mempool \cup {t}
+\* (the same bytes may be offered again later: they are in the mempool again, and the seen-set filters them)
+Inject(t) == /\ (t \notin injected \/ ReInject) /\ injected' = injected \cup {t} /\ mempool' = mempool \cup {t}
              /\ UNCHANGED <<seen, queue, pcR, cand, pcP, cur, pend, chain, crashes, excused>>
 
 \* reaper: get the mempool, keep what is not yet seen, hand it off (durable put in the queue) or be refused
@@ -77,7 +80,19 @@ Crash == /\ crashes < MaxCrashes /\ crashes' = crashes + 1
          /\ pcR' = "idle" /\ cand' = {} /\ pcP' = "idle" /\ cur' = {}
          /\ UNCHANGED <<mempool, seen, queue, pend, chain, injected>>
 
-Next == \/ \E t \in Txs : Inject(t) \/ MarkSeen(t)
+\* a refused write of a seen-marker: the reaper goes on with the next one; the transaction stays unmarked and is handed
+\* off again by the next round (at-least-once)
+ReaperFail(t) == /\ WriteFails /\ pcR = "handed" /\ t \in cand /\ crashes < MaxCrashes /\ crashes' = crashes + 1
+                 /\ cand' = cand \ {t} /\ pcR' = IF cand' = {} THEN "idle" ELSE "handed"
+                 /\ UNCHANGED <<mempool, seen, queue, pcP, cur, pend, chain, injected, excused>>
+\* ... or the production step (same window as a crash between take and first save)
+ProducerFail == /\ WriteFails /\ pcP \in {"took", "saved"} /\ crashes < MaxCrashes /\ crashes' = crashes + 1
+                /\ excused' = IF PopBeforeSave /\ pcP = "took" THEN excused \cup cur ELSE excused
+                /\ pcP' = "idle" /\ cur' = {}
+                /\ UNCHANGED <<mempool, seen, queue, pcR, cand, pend, chain, injected>>
+
+Next == \/ ProducerFail
+        \/ \E t \in Txs : Inject(t) \/ MarkSeen(t) \/ ReaperFail(t)
         \/ ReapHandOff \/ UsePending \/ Take \/ EarlySave \/ Commit \/ Crash
 Spec == Init /\ [][Next]_vars
 LiveSpec == Spec /\ WF_vars(ReapHandOff) /\ WF_vars(\E t \in Txs : MarkSeen(t)) /\ WF_vars(UsePending) /\ WF_vars(Take) /\ WF_vars(EarlySave) /\ WF_vars(Commit)
